@@ -2,9 +2,10 @@
 //!
 //! For every generated problem the real `DefaultSolver::new` is run and what it leaves in
 //! `solver.data.{P,q,A,b,equilibration}` is printed as four Gallina cases:
-//!   model          the model at binary64 (OpsF) on the same inputs   (0 bit-exact, 2 within 1e-13)
+//!   model          the model at binary64 (OpsF) on the same inputs   (bitwise equality required)
 //!   props          the property evaluated on the Rust output alone, exact dyadic arithmetic
-//!   strict_bounds  the literal bounds, no slack                      (F9 measurement)
+//!   strict_clip    literal bounds of d, c, scalar-cone e (clip-then-multiply) (F9)
+//!   strict_rect    literal bounds of rectified e                            (F9)
 //!   strict_uniform e bit-constant over every rectified cone          (F9 measurement)
 //! plus one dedicated `literal_bounds` witness (settings with min > 1).
 #[path = "../blas_shim.rs"]
@@ -199,11 +200,6 @@ fn emit(sink: &mut CaseSink, st: &mut Stats, pr: &Problem, tags: &[&str]) {
             return;
         }
     };
-    if !out.finite() {
-        st.bump("nonfinite_output");
-        sink.case("props", input, "1%N".into(), tags);
-        return;
-    }
     let dims_same = out.a.m == pr.a.m && out.a.n == pr.a.n && out.p.n == pr.p.n;
     if !dims_same {
         // presolve / chordal decomposition changed the problem: outside this property's scope
@@ -221,24 +217,45 @@ fn emit(sink: &mut CaseSink, st: &mut Stats, pr: &Problem, tags: &[&str]) {
     let coq_model = format!("c_model {} {} {} {} {} {} {}", set_f, cones_coq(&out.icones),
         pr.p.coq("RF", &cfllist), cfllist(&pr.q), pr.a.coq("RF", &cfllist), cfllist(&pr.b), out.coq("RF", &cfllist, &cfl));
     sink.case("model", input.clone(), coq_model, tags);
+    if !out.finite() {
+        // overflow inside the scaling (only seen with absurd bounds such as min = 1e300): the model
+        // above must reproduce the same infinities / NaNs; the property itself does not hold
+        st.bump("nonfinite_output");
+        sink.case("props", input, "1%N".into(), tags);
+        return;
+    }
     // (ii) the property on the Rust output, with the cones as the user gave them
     let coq_props = format!("c_props {} {} {} {} {} {} {}", set_d, cones_coq(&pr.cones),
         pr.p.coq("RD", &cdylist), cdylist(&pr.q), pr.a.coq("RD", &cdylist), cdylist(&pr.b), out.coq("RD", &cdylist, &cdy));
     sink.case("props", input.clone(), coq_props, tags);
     if pr.enable {
-        // (iii) the literal statement
-        let excess = pr.smin <= 1.0 && 1.0 <= pr.smax
-            && out.d.iter().chain(out.e.iter()).chain(std::iter::once(&out.c)).any(|&x| x > pr.smax || x < pr.smin);
-        let mut tags_b: Vec<&str> = tags.to_vec();
-        if excess { tags_b.push("f9_bounds_excess"); }
-        sink.case("strict_bounds", input.clone(),
-                  format!("c_strict_bounds {} {} {} {} {}", cdy(pr.smin), cdy(pr.smax), cdylist(&out.d), cdylist(&out.e), cdy(out.c)), &tags_b);
+        // (iii) the literal statement, split by the operation that can round
+        let (lo, hi) = (pr.smin.min(pr.smax), pr.smin.max(pr.smax));
+        let applies = (lo <= 1.0 && 1.0 <= hi) || pr.iters >= 1;
+        let outside = |x: f64| x < lo || x > hi;
+        // rows of scalar (Zero/NN) cones vs rows of rectified cones
+        let mut scalar_row = vec![true; out.e.len()];
+        { let mut off = 0; for c in pr.cones.iter() { let n = c.numel();
+            if !matches!(c, ConeS::Zero(_) | ConeS::Nn(_)) { for i in off..(off + n).min(scalar_row.len()) { scalar_row[i] = false; } }
+            off += n; } }
+        let clip_excess = applies && (out.d.iter().any(|&x| outside(x)) || (outside(out.c) && out.c != 1.0)
+            || out.e.iter().zip(scalar_row.iter()).any(|(&x, &sc)| sc && outside(x)));
+        let rect_excess = applies && out.e.iter().zip(scalar_row.iter()).any(|(&x, &sc)| !sc && outside(x));
+        let mut tags_c: Vec<&str> = tags.to_vec();
+        if clip_excess { tags_c.push("f9_clip_excess"); st.bump("f9:clip_multiply_outside_bounds"); }
+        let mut tags_r: Vec<&str> = tags.to_vec();
+        if rect_excess { tags_r.push("f9_rect_excess"); st.bump("f9:rectified_outside_bounds"); }
+        sink.case("strict_clip", input.clone(),
+                  format!("c_strict_clip {} {} {} {} {} {} {}", cn(pr.iters as usize), cdy(pr.smin), cdy(pr.smax), cones_coq(&pr.cones),
+                          cdylist(&out.d), cdylist(&out.e), cdy(out.c)), &tags_c);
+        sink.case("strict_rect", input.clone(),
+                  format!("c_strict_rect {} {} {} {} {}", cn(pr.iters as usize), cdy(pr.smin), cdy(pr.smax), cones_coq(&pr.cones), cdylist(&out.e)), &tags_r);
         sink.case("strict_uniform", input.clone(), format!("c_strict_uniform {} {}", cones_coq(&pr.cones), cdylist(&out.e)), tags);
         // the same measured here for the statistics record (the verdict is Coq's)
-        if pr.smin <= 1.0 && 1.0 <= pr.smax {
+        if applies {
             for &x in out.d.iter().chain(out.e.iter()).chain(std::iter::once(&out.c)) {
-                if x > pr.smax { st.over_max += 1; st.max_excess_ulps = st.max_excess_ulps.max((x / pr.smax - 1.0) / f64::EPSILON); }
-                if x < pr.smin { st.under_min += 1; st.max_excess_ulps = st.max_excess_ulps.max((1.0 - x / pr.smin) / f64::EPSILON); }
+                if x > hi && x != 1.0 { st.over_max += 1; st.max_excess_ulps = st.max_excess_ulps.max((x / hi - 1.0) / f64::EPSILON); }
+                if x < lo && x != 1.0 { st.under_min += 1; st.max_excess_ulps = st.max_excess_ulps.max((1.0 - x / lo) / f64::EPSILON); }
             }
         }
         let mut off = 0;
@@ -257,6 +274,9 @@ fn emit(sink: &mut CaseSink, st: &mut Stats, pr: &Problem, tags: &[&str]) {
 
 // ---------------------------------------------------------------- generators
 const MINMAX: [(f64, f64); 4] = [(1e-4, 1e4), (1.0, 1.0), (1e-1, 1e2), (1e-8, 1e8)];
+/// out-of-the-ordinary settings: min > max (both orders of magnitude), 1 outside [min,max],
+/// huge / tiny bounds
+const MINMAX_ODD: [(f64, f64); 7] = [(1e4, 1e-4), (10.0, 0.1), (2.0, 0.5), (2.0, 4.0), (0.25, 0.5), (1e-300, 1e300), (1e300, 1e-300)];
 const ITERS: [u32; 4] = [0, 1, 10, 50];
 
 /// magnitude generators: 0 = powers of two over 2^-50..2^50 (30 orders of magnitude),
@@ -341,9 +361,36 @@ fn gen_problem(rng: &mut Rng, big: bool) -> Problem {
         let mut v = mag(rng, vmode) * rs[i];
         while v.abs() >= 1e19 { v *= (2.0f64).powi(-40); }
         v }).collect();
-    let (smin, smax) = *rng.pick(&MINMAX);
+    let (smin, smax) = if rng.chance(1, 5) { *rng.pick(&MINMAX_ODD) } else { *rng.pick(&MINMAX) };
     Problem { p: Raw::from_dense(&gp, n, n), q, a: Raw::from_dense(&ga, m, n), b, cones,
               enable: !rng.chance(1, 8), iters: *rng.pick(&ITERS), smin, smax, defaults: rng.chance(1, 3) }
+}
+
+/// "creep" stream: the objective block pins the column scalings while tiny rows of A keep pulling
+/// the row scalings up (or large rows down) pass after pass, so that the clip engages with a
+/// cumulative factor that is a generic binary64 number (not 1 and not a bound): the situation in
+/// which fl(cum * fl(bound / cum)) can differ from the bound by one ulp (F9).  The excess is
+/// transient (the next pass clips again and usually lands on the bound), so the number of passes
+/// varies over 2..8 to catch the pass at which the clip first engages.
+fn gen_creep(rng: &mut Rng) -> Problem {
+    let n = rng.range(1, 2) as usize;
+    let m = rng.range(1, 3) as usize;
+    let up = rng.chance(2, 3);
+    let mut gp = vec![vec![None; n]; n];
+    for j in 0..n { gp[j][j] = Some((1.0 + rng.unit()) * (10.0f64).powi(rng.range(0, 3) as i32)); }
+    let mut ga = vec![vec![None; n]; m];
+    for i in 0..m { for j in 0..n {
+        if j == i % n || rng.chance(1, 3) {
+            let e = if up { rng.range(-9, -3) } else { rng.range(5, 11) };
+            ga[i][j] = Some((1.0 + rng.unit()) * (10.0f64).powi(e as i32));
+        }
+    } }
+    let cones = if m >= 2 && rng.chance(1, 2) { vec![ConeS::Soc(m)] } else { vec![ConeS::Nn(m)] };
+    let q: Vec<f64> = if rng.chance(1, 2) { vec![0.0; n] } else { (0..n).map(|_| 1.0 + rng.unit()).collect() };
+    let b: Vec<f64> = (0..m).map(|_| 1.0 + rng.unit()).collect();
+    let (smin, smax) = *rng.pick(&[(1e-1, 1e2), (1e-4, 1e4), (1e-1, 1e2), (10.0, 0.1)]);
+    Problem { p: Raw::from_dense(&gp, n, n), q, a: Raw::from_dense(&ga, m, n), b, cones,
+              enable: true, iters: rng.range(2, 8) as u32, smin, smax, defaults: false }
 }
 
 /// fixed boundary cases (always run first)
@@ -352,7 +399,7 @@ fn fixed_cases() -> Vec<Problem> {
     let a = Raw::from_dense(&[vec![Some(1e15), Some(2.0)], vec![None, Some(3e-15)], vec![None, None]], 3, 2);
     let p0 = Raw::from_dense(&[vec![None, None], vec![None, None]], 2, 2);
     let p1 = Raw::from_dense(&[vec![Some(4.0), Some(1e10)], vec![None, Some(1e-10)]], 2, 2);
-    for &(smin, smax) in MINMAX.iter() { for &iters in ITERS.iter() { for (k, p) in [&p0, &p1].iter().enumerate() {
+    for &(smin, smax) in MINMAX.iter().chain(MINMAX_ODD.iter()) { for &iters in ITERS.iter() { for (k, p) in [&p0, &p1].iter().enumerate() {
         v.push(Problem { p: (*p).clone(), q: vec![1.0, -2e5], a: a.clone(), b: vec![1.0, 2.0, 3.0],
                          cones: if k == 0 { vec![ConeS::Zero(1), ConeS::Nn(2)] } else { vec![ConeS::Soc(3)] },
                          enable: true, iters, smin, smax, defaults: false });
@@ -429,6 +476,10 @@ fn main() {
         for k in 0..nprob {
             let pr = gen_problem(&mut rng, k % 4 == 3);
             emit(&mut sink, &mut st, &pr, &["random"]);
+        }
+        for _ in 0..(if thorough { 1500 } else { 120 }) {
+            let pr = gen_creep(&mut rng);
+            emit(&mut sink, &mut st, &pr, &["creep"]);
         }
     }
     sink.record(json!({"stats": st.by}));
